@@ -55,10 +55,12 @@ def check(ctx, rep, tier):
         (n1, t1, v1_1, repl1, strip1), (n2, t2, v1_2, repl2, strip2) = subs
         cls1 = _class_of(t1, v1_1)
         cls2 = _class_of(t2, v1_2)
-        _compare(rep, cm, "separator-class", n1 + tag, cls1, r,
-                 lambda cp: unicodedata.category(chr(cp)) in SEP_CATS or cp in SEP_CHARS, full, domain)
-        _compare(rep, cm, "dash-class", n2 + tag, cls2, r,
-                 lambda cp: unicodedata.category(chr(cp)) == "Pd" or cp in DASH_EXTRA, full, domain)
+        is_sep = lambda cp: unicodedata.category(chr(cp)) in SEP_CATS or cp in SEP_CHARS  # noqa: E731
+        is_dash = lambda cp: unicodedata.category(chr(cp)) == "Pd" or cp in DASH_EXTRA  # noqa: E731
+        # a character normalised *in addition* to the stated classes leaves every stated equivalence
+        # intact unless it belongs to the other class (a dash turned into a blank is no longer '-')
+        _compare(rep, cm, "separator-class", n1 + tag, cls1, r, is_sep, full, domain, conflict=is_dash)
+        _compare(rep, cm, "dash-class", n2 + tag, cls2, r, is_dash, full, domain, conflict=is_sep)
         for label, repl, strip, nm, want in (("separator-class", repl1, strip1, n1, " "),
                                              ("dash-class", repl2, strip2, n2, "-")):
             rep.add(label, "{}::_preprocess_string::{} replacement{}".format(cm.rel, nm, tag), cm.where(r),
@@ -210,7 +212,28 @@ def _single_char(n):
     return n.cs if n.kind == "char" else None
 
 
-def _compare(rep, cm, label, name, cls, node, spec, full, domain="all"):
+def normaliser_classes(ctx):
+    """[(separator class, dash class, return node)] of every return path of _preprocess_string whose
+    text is a chain of the two substitutions; None for a path outside that shape (used by C10)."""
+    cm = ctx.imod("ctparse.ctparse")
+    pre = cm.func("_preprocess_string")
+    rets = [r for r in ast.walk(pre) if isinstance(r, ast.Return) and r.value is not None]
+    T = st_.Terms(cm)
+    T.run(pre.body, {pre.args.args[0].arg: ("text", "raw")})
+    ret_terms = {id(node): term for term, node in T.returns}
+    out = []
+    for r in rets:
+        subs = _term_chain(ret_terms.get(id(r)), st_)
+        if len(subs) != 2:
+            out.append(None)
+            continue
+        (n1, t1, v1_1, _r1, _s1), (n2, t2, v1_2, _r2, _s2) = subs
+        c1, c2 = _class_of(t1, v1_1), _class_of(t2, v1_2)
+        out.append(None if c1 is None or c2 is None else (c1[0], c2[0], r))
+    return cm, out
+
+
+def _compare(rep, cm, label, name, cls, node, spec, full, domain="all", conflict=None):
     c = "{}::{}::class".format(cm.rel, name)
     if cls is None:
         rep.undecided(label, c, cm.where(node), "pattern is not a repeated character class")
@@ -221,24 +244,27 @@ def _compare(rep, cm, label, name, cls, node, spec, full, domain="all"):
     else:
         rng = list(range(0, 0x110000)) if full else list(range(0, 0x3100)) + list(range(0xD700, 0x10000)) + \
             list(range(0x1F000, 0x1F100)) + [0xE0001, 0xE0020, 0xF0000, 0x10FFFF, 0x10000, 0x2FFFF]
-    missing, extra = [], []
+    missing, extra, benign_extra = [], [], []
     n = 0
     for cp in rng:
         n += 1
         a = cs.contains(cp)
         b = spec(cp)
         if a and not b:
-            extra.append(cp)
+            (extra if conflict is None or conflict(cp) else benign_extra).append(cp)
         elif b and not a:
             missing.append(cp)
     ok = not missing and not extra
     det = "{} code points".format(n)
+    if benign_extra:
+        det += "; also normalised, outside the stated classes and in conflict with none: {}".format(
+            ["U+%04X" % c_ for c_ in benign_extra[:5]])
     if not ok:
         det = ""
         if missing:
             det += "not normalised: {} ".format(["U+%04X" % c_ for c_ in missing[:5]])
         if extra:
-            det += "normalised although not in the stated classes: {}".format(["U+%04X" % c_ for c_ in extra[:5]])
+            det += "normalised here although the property gives it to the other class: {}".format(["U+%04X" % c_ for c_ in extra[:5]])
     rep.add(label, c, cm.where(node), ok, det,
             witness=None if ok else {"missing": missing[:10], "extra": extra[:10]})
     rep.add(label, "{}::{}::applied to runs".format(cm.rel, name), cm.where(node), plus,
